@@ -82,6 +82,7 @@ class MapX:
         self.I = I
         self.dataele = dataele
         self.nodes = []          # (index path, string path, kind, id)
+        self.seg_notes = {}      # index path (dotted) -> syntax notes as the loader keeps them: [['P', 3, 4], …] (None: some note is malformed)
         root = et.parse(os.path.join(MAPDIR, fname)).getroot()
         self.xid = root.get('xid')
         self.children = self.loop_children(root, [], '', True)
@@ -166,6 +167,8 @@ class MapX:
                     notes = [n for n in (note_of(s.text) for s in e.findall('syntax')) if n is not None]
                     p = spath + '/' + sid + ('[' + qual + ']' if qual is not None else '')
                     self.nodes.append((ip + [i], p, 'segment', sid))
+                    self.seg_notes['.'.join(str(x) for x in ip + [i])] = (
+                        None if any(k == 5 for k, _ in notes) else [['PRECL'[k]] + list(ps) for k, ps in notes])
                     out.append({'kind': 'seg', 'id': I(sid), 'qual': I(qual), 'pos': pos,
                                 'usage': usage_code(attr(e, 'usage'), I), 'maxUse': rep_code(attr(e, 'max_use'), I),
                                 'notes': notes, 'children': ch})
@@ -313,7 +316,7 @@ def main():
         # the Lean side lists violations in document order: per-node rules first (pre-order), then fetch rules
         def order(v):
             return (1 if v[0] == RULES['fetch'] else 0, v[1], 0)
-        side['maps'][f] = {'module': mn, 'nodes': mx.nodes, 'expected': exp, 'xid': mx.xid, 'xid_n': I(mx.xid),
+        side['maps'][f] = {'module': mn, 'nodes': mx.nodes, 'notes': mx.seg_notes, 'expected': exp, 'xid': mx.xid, 'xid_n': I(mx.xid),
                            'skel': ' '.join(str(x) for x in skel_numbers(mx.children))}
         chk = ['/- generated by tools/xlate.py -- do not edit -/', 'import Gen.Tables', 'import Gen.Maps.' + mn,
                'open Pyx12Verif.MapSkel', 'set_option maxRecDepth 1000000', 'namespace Gen', '',
